@@ -20,9 +20,12 @@ def subst(v):
 orig_parse = None
 for i, (pat, f) in enumerate(ms.MODEL_PATTERNS):
     if pat.pattern == r'^(Prog|Expr)Parser::parse$': orig_parse = f; idx = i
+PROG = []
 def parse_hook(Mx, a, c):
     r = orig_parse(Mx, a, c)
-    if r.variant == 0: subst(r.fields[0])
+    if r.variant == 0:
+        subst(r.fields[0])
+        if 'ProgParser' in c: PROG.append(r.fields[0])
     return r
 ms.MODEL_PATTERNS[idx] = (ms.MODEL_PATTERNS[idx][0], parse_hook)
 # symbolic ints in output
@@ -41,6 +44,57 @@ try:
     detail = 'exit=%d out=%r err=%r' % (code, so, se[:120])
 except Panic as e: status = 'panic'; detail = str(e)
 except Unsupported as e: status = 'unsupported'; detail = str(e)[:200]
+import refsem
+verdict = ''
+def pieces_real(b):
+    out = []; i = 0
+    for m in re.finditer(rb'<<(\d+)>>', b):
+        if m.start() > i: out.append(b[i:m.start()])
+        out.append(SYMS[m.group(0)]); i = m.end()
+    if i < len(b): out.append(b[i:])
+    return out
+def pieces_ref(vals):
+    out = []
+    for v in vals:
+        if v[0] == 'int':
+            if isinstance(v[1], int): out.append(str(v[1]).encode())
+            elif z3.is_bv_value(v[1]): out.append(str(v[1].as_signed_long()).encode())
+            else: out.append(Int(64, True, v[1]))
+        elif v[0] == 'bool': out.append(b'true' if v[1] is True or z3.is_true(v[1]) else b'false')
+        elif v[0] == 'null': out.append(b'<null>')
+        out.append(b'\n')
+    # merge adjacent bytes
+    m = []
+    for p in out:
+        if isinstance(p, bytes) and m and isinstance(m[-1], bytes): m[-1] += p
+        else: m.append(p)
+    return m
+if status == 'ok' and PROG:
+    ast = [refsem.imp_stmt(st) for st in PROG[0].fields[0].d['b']]
+    real = pieces_real(so)
+    def on_case(outcome, s):
+        global verdict
+        if s.check() != z3.sat: return
+        exp_code = 0 if outcome[0] == 'ok' else 103
+        ref = pieces_ref(outcome[1])
+        okk = (exp_code == code) and len(ref) == len(real)
+        if okk:
+            for a, b in zip(ref, real):
+                if isinstance(a, bytes) != isinstance(b, bytes): okk = False; break
+                if isinstance(a, bytes):
+                    if a != b: okk = False; break
+                else:
+                    s.push(); s.add(a.z() != b.z()); bad = s.check() == z3.sat; s.pop()
+                    if bad: okk = False; break
+        if not okk:
+            mdl = s.model()
+            verdict += ' MISMATCH[ref=%s code=%d wit=%s]' % (ref, exp_code, {k: mdl.eval(h.v, model_completion=True).as_signed_long() for k, h in HOLES.items()})
+        else: verdict += ' agree'
+    try:
+        refsem.lockstep(list(M.solver.assertions()), ast, on_case)
+    except NotImplementedError as e:
+        verdict = ' ref-unsupported(%s)' % e
+    detail += ' ||' + verdict
 wit = {}
 if M.solver.check() == z3.sat:
     mdl = M.solver.model(); wit = {k: mdl.eval(h.v, model_completion=True).as_signed_long() for k, h in HOLES.items()}
@@ -48,4 +102,4 @@ with open(RES, 'a') as f: f.write(json.dumps({'status': status, 'detail': detail
 if M.is_child: os._exit(0)
 rows = [json.loads(l) for l in open(RES)]
 print('paths', len(rows), 'time %.1fs' % (time.time() - t0))
-for r in rows: print(r['status'], r['wit'], r['detail'][:150], 'steps', r['steps'])
+for r in rows: print(r['status'], r['wit'], r['detail'][:260])
